@@ -157,6 +157,18 @@ def check_case(run, members, fbp, extra_bp, exit_on_exception):
                         run.fail({"subcheck": "portfolio:get_value-blocks"}, case, "get_value() blocks with no member alive")
                     elif out[0] == "raised":
                         run.fail({"subcheck": "portfolio:get_value-raised"}, case, "get_value raised %s: %s" % (type(out[1]).__name__, out[1]))
+            if r is not None and oks and not exit_on_exception:
+                # solving under assumptions: the verdict is the one of assertions + assumptions, the assertions stay
+                out = call_with_deadlock_watch(lambda: port.solve([e2]))
+                if out[0] == "ok":
+                    run.cls("solve-under-assumptions")
+                    if out[1] != brute([b, b2]):
+                        run.fail({"subcheck": "portfolio:verdict-under-assumptions"}, case,
+                                 "solve([%s]) returned %r with the assertion %s (members %r)" % (show(b2, 80), out[1], show(b, 80), members))
+                    elif list(port.assertions) != [f]:
+                        run.fail({"subcheck": "portfolio:assumptions-left-asserted"}, case, "assertions after solve(assumptions): %s" % list(port.assertions))
+                elif out[0] == "deadlock":
+                    run.fail({"subcheck": "portfolio:blocks-forever", "all_fail": False}, case, "solve(assumptions) blocks")
             if r is not None:
                 # push / assert / solve / pop / solve
                 port.push()
